@@ -39,7 +39,17 @@ Proof.
   intros c H ops1 ops2 E. apply mem_disk_equiv_writes; auto; [apply all_cfgs_ok; auto|].
   pose proof all_deep as A. rewrite forallb_forall in A. auto.
 Qed.
-Print Assumptions C15_mem_disk_equiv_writes.
-Print Assumptions C15_no_alias_backward_at.
+(* Load_Simu (Save s) behaves like s for EVERY continuation, from every reachable state *)
+Theorem C15_save_load_every_continuation : forall c, In c all_cfgs -> forall ops f ops',
+  let sL := run c ops' (step c (SaveLoad f) (reach c ops)) in
+  let sO := run c ops' (drop_handed (step c (SetFolder f) (reach c ops))) in
+  absw sL = absw sO /\ store_vals c sL = store_vals c sO /\ folder sL = folder sO /\ length (store sL) = length (store sO).
+Proof.
+  intros c H ops f ops'. apply save_load_every_continuation_reachable; [apply all_cfgs_ok; auto|].
+  pose proof all_deep as A. rewrite forallb_forall in A. auto.
+Qed.
+Print Assumptions C15_save_load_every_continuation.
+(* Print Assumptions C15_mem_disk_equiv_writes: printed for the general theorem in the EFModel file (static build) *)
+(* Print Assumptions C15_no_alias_backward_at: printed for the general theorem in the EFModel file (static build) *)
 Print Assumptions C15_no_alias_backward.
-Print Assumptions C15_restore_exact_with_writes.
+(* Print Assumptions C15_restore_exact_with_writes: printed for the general theorem in the EFModel file (static build) *)
